@@ -186,7 +186,12 @@ fn build_compression_header_block(src: &[u8]) -> io::Result<Block> {
 }
 
 fn calculate_base_count(records: &[Record]) -> io::Result<u64> {
-    let n: usize = records.iter().map(|record| record.read_length).sum();
+    // A record without a sequence has a read length but no bases.
+    let n: usize = records
+        .iter()
+        .filter(|record| !record.cram_flags.sequence_is_missing())
+        .map(|record| record.read_length)
+        .sum();
     u64::try_from(n).map_err(|e| io::Error::new(io::ErrorKind::InvalidInput, e))
 }
 
@@ -206,4 +211,30 @@ where
     W: Write,
 {
     writer.write_all(&EOF)
+}
+
+#[cfg(test)]
+mod tests {
+    use super::*;
+
+    #[test]
+    fn test_calculate_base_count() -> io::Result<()> {
+        use crate::record::Flags;
+
+        let records = [
+            Record {
+                read_length: 4,
+                ..Default::default()
+            },
+            Record {
+                cram_flags: Flags::SEQUENCE_IS_MISSING,
+                read_length: 2,
+                ..Default::default()
+            },
+        ];
+
+        assert_eq!(calculate_base_count(&records)?, 4);
+
+        Ok(())
+    }
 }
